@@ -325,7 +325,6 @@ class Session:
         cu, fr = self.cu, self.front
         self.emit('vnew', 'ok', 'vnew')
         self.emit('mode 1', 'ok', 'mode')
-        self.esc_seen = False
         v = CSSVariablesDeclaration()
         cu.log.raiseExceptions = True
         try:
@@ -340,12 +339,14 @@ class Session:
                     self.emit('vro %d' % op[1], 'ok', op)
                     continue
                 if k == 'vset':
-                    fr.idn(G.py_normalize(op[1]))
+                    fr.idn(op[1])
+                    fr.tok(op[1])
                     fr.val(op[2])
                     r = self.call(lambda: v.setVariable(op[1], op[2]))
                     self.emit('vset %s %s' % (enc(op[1]), enc(op[2])), r, op)
                 elif k == 'vseti':
-                    fr.idn(G.py_normalize(op[1]))
+                    fr.idn(op[1])
+                    fr.tok(op[1])
                     fr.val(op[2])
                     r = self.call(lambda: v.__setitem__(op[1], op[2]))
                     self.emit('vset %s %s' % (enc(op[1]), enc(op[2])), r, op)
@@ -368,8 +369,6 @@ class Session:
                     text = G.render_vitems(op[1])
                     r = self.call(lambda: setattr(v, 'cssText', text))
                     self.emit(' '.join(['vtext'] + words), r, ('vtext', text))
-                if k in ('vset', 'vseti') and G.py_normalize(G.py_normalize(op[1])) != G.py_normalize(op[1]):
-                    self.esc_seen = True      # from here on the block may be out of sync (known finding)
                 self.emit('vobs', vobs_impl(v), ('vobs after', op))
                 for nm in G.var_probe_names(op):
                     self.emit('vget %s' % enc(nm), enc(v.getVariableValue(nm)), ('vget', nm))
@@ -384,23 +383,22 @@ class Session:
         """the serialisation lists exactly the variables the API reports (checked by reparsing the text)"""
         from cssutils.css import CSSVariablesDeclaration
         ctx = self.ctx
-        reported = [(k, v.getVariableValue(k)) for k in v.keys()]
+        # look a listed key up by a literal spelling of it (the API normalises its argument; a listed key is already
+        # normalised and normalising is not idempotent, so the key is re-quoted first)
+        reported = [(k, v.getVariableValue(G.requote(k))) for k in v.keys()]
         if len(set(k for k, _ in reported)) != len(reported) or v.length != len(reported):
             ctx.violate('variables block: keys are distinct and length counts them', {'ops': self.history},
                         {'reported': reported, 'length': v.length})
         if list(v) != v.keys() or [v.item(i) for i in range(v.length)] != v.keys():
             ctx.violate('variables block: iteration and item() enumerate keys()', {'ops': self.history}, None)
+        if any(G.requote(k) not in v for k in v.keys()):
+            ctx.violate('variables block: every listed key is a member', {'ops': self.history}, {'keys': v.keys()})
         text = v.cssText
         listed = G.list_variables(text)
         want = [(k, G.strip_comments(val)) for k, val in reported]
         if listed != want:
-            kn = None
-            if any(not G.bare_ident(self.front, k) for k, _ in reported):
-                kn = 'C10-var-name-not-bare-ident'
-            if any(G.py_normalize(k) != k for k, _ in reported) or self.esc_seen:
-                kn = 'C10-escaped-backslash-name'
             ctx.violate('variables block: the serialisation lists exactly the variables the API reports',
-                        {'ops': self.history, 'cssText': text}, {'api': want, 'text_lists': listed}, known=kn)
+                        {'ops': self.history, 'cssText': text}, {'api': want, 'text_lists': listed})
 
 
 class C10(Check):
@@ -456,12 +454,10 @@ class C10(Check):
     def run(self, ctx):
         cu = _impl()
         names = self.names(ctx)
-        self.check_names_live(ctx, names)
-        self.run_corpus(ctx, cu, names)
-        self.corr_dom(ctx, cu, names)
-        self.oracle_attr(ctx, cu, names)
-        self.corr_decl(ctx, cu, names)
-        self.corr_vars(ctx, cu, names)
+        for part in (self.check_names_live, ):
+            ctx.phase(part, ctx, names)
+        for part in (self.run_corpus, self.corr_dom, self.oracle_attr, self.corr_decl, self.corr_vars):
+            ctx.phase(part, ctx, cu, names)
 
     def check_names_live(self, ctx, names):
         from cssutils.css.cssproperties import CSS2Properties, _toDOMname
